@@ -492,7 +492,9 @@ func runC02_18(c *core.Ctx) {
 	has := func(v, b constant.Value) bool {
 		return constant.Sign(constant.BinaryOp(constant.ToInt(v), token.AND, constant.ToInt(b))) != 0
 	}
-	eq := func(a, b constant.Value) bool { return constant.Compare(constant.ToInt(a), token.EQL, constant.ToInt(b)) }
+	eq := func(a, b constant.Value) bool {
+		return constant.Compare(constant.ToInt(a), token.EQL, constant.ToInt(b))
+	}
 	f0 := getFn(c, "pkg/netpoll", "Poller.AddRead")
 	if f0 == nil {
 		return
